@@ -161,7 +161,7 @@ var propC14 = &simProp{
 	ID: "C14",
 	Profile: sim.Profile{
 		Name: "C14", Voters: [2]int{1, 5}, Phases: [2]int{2, 7},
-		Patterns: []string{"P6", "P6", "P6", "P6", "P7", "P7", "P26", "P26", "free", "free", "P11", "P1", "P12", "P4b"},
+		Patterns: []string{"P6", "P6", "P6", "P6", "P7", "P7", "P26", "P26", "P33", "free", "free", "P11", "P1", "P12", "P4b"},
 		Writes:   true, Crashes: true, Stops: true, Snapshots: "both", BigPayload: true, EpilogueET: 12, Prologue: true,
 	},
 	Owns: []string{"C14", "C01", "C02", "C06", "C07"},
